@@ -6,7 +6,7 @@ import itertools
 from common import Result, pmap, compare, enc_value, dec_outcome, call_outcome, canon_py, thaw, ERR
 
 ID = 'C12'
-COQ_FILES = ['Properties/C12.v', 'Proofs/LogicProofs.v', 'Proofs/ValueProofs.v']
+COQ_FILES = ['Properties/C12.v', 'Proofs/LogicProofs.v', 'Proofs/LogicAlgebra.v', 'Proofs/ValueProofs.v']
 TRUSTED = [
     'modelled, not verified: Python truthiness, ==, all/any/sum, isinstance on the value classes int, float, bool, str, '
     'None, XLError, datetime, list (Model/Value.v); floats are the exact rationals they denote',
@@ -185,7 +185,49 @@ def pred_values(rng):
     return vals
 
 
-CHECKERS = {'formula': check_formula, 'predicates': check_predicates}
+def check_law(c):
+    """c = (specs, permutation): the laws of Proofs/LogicAlgebra.v asked of the implementation as nested formulas
+    (order of the items irrelevant, De Morgan, XOR of two items, NOT of NOT); error-free items only."""
+    import hotxlfp
+    specs, perm = c
+    out = []
+
+    def ev(f):
+        r = hotxlfp.Parser().parse(f)
+        return r['result'] if r['error'] is None else ('ERR', r['error'])
+
+    def flat_texts(s):
+        if isinstance(s, int):
+            return [spec_pool()[s][1]]
+        return [t for x in s[1] for t in flat_texts(x)]
+    texts = [build(s)[1] for s in specs]
+    leaf_texts = [t for s in specs for t in flat_texts(s)]
+    vals = list(leaves(thaw([build(s)[0] for s in specs])))
+    if any(is_error(v) for v in vals) or not leaf_texts:
+        return out
+    ts = [truth(v) for v in vals]
+    shuffled = [texts[i] for i in perm]
+    for name, want in (('AND', all(ts)), ('OR', any(ts)), ('XOR', sum(ts) % 2 == 1)):
+        a = ev('%s(%s)' % (name, ','.join(texts)))
+        b = ev('%s(%s)' % (name, ','.join(shuffled)))
+        if a is not want or b is not want:
+            out.append(('%s over %s and reordered %s' % (name, texts, shuffled), None, repr(want), repr((a, b))))
+    nots = ','.join('NOT(%s)' % t for t in leaf_texts)
+    for f, want in (('NOT(AND(%s))' % ','.join(texts), not all(ts)), ('OR(%s)' % nots, not all(ts)),
+                    ('NOT(OR(%s))' % ','.join(texts), not any(ts)), ('AND(%s)' % nots, not any(ts)),
+                    ('NOT(NOT(%s))' % leaf_texts[0], ts[0])):
+        g = ev(f)
+        if g is not want:
+            out.append((f, None, repr(want), repr(g)))
+    if len(leaf_texts) >= 2:
+        f = 'XOR(%s,%s)' % (leaf_texts[0], leaf_texts[1])
+        g = ev(f)
+        if g is not (ts[0] != ts[1]):
+            out.append((f, None, repr(ts[0] != ts[1]), repr(g)))
+    return out
+
+
+CHECKERS = {'formula': check_formula, 'predicates': check_predicates, 'law': check_law}
 
 
 def check_case(case):
@@ -295,6 +337,17 @@ def explore(ctx):
         work.append(('formula', ('IFS', [rng.randrange(n_pool) for _ in range(n)])))
         m = rng.choice([3, 4, 5, 6, 7])
         work.append(('formula', ('SWITCH', [rng.choice([0, 1, 2, 3, 4, 5, 6, 7, 8]) for _ in range(m)])))
+    ok_pool = [i for i in range(n_pool) if not is_error(thaw([P[i][0]])[0])]
+    for _ in range(3000 if ctx.thorough else 600):
+        n = rng.randint(1, 5)
+        t = [rng.choice(ok_pool) for _ in range(n)]
+        if rng.random() < 0.4:
+            i = rng.randint(0, n - 1)
+            j = rng.randint(i + 1, n)
+            t = t[:i] + [('L', t[i:j])] + t[j:]
+        perm = list(range(len(t)))
+        rng.shuffle(perm)
+        work.append(('law', (t, perm)))
     work += [('predicates', v) for v in pred_values(rng)]
     for vs in pmap(_worker, work):
         for (k, c, w, cls, e, g) in vs:
@@ -304,7 +357,8 @@ def explore(ctx):
               'blank, two error codes) and random nested regroupings incl. text, dates, empty/nested arrays; NOT, IF, every '
               'predicate on every pool value, wrong arities; IFS/SWITCH on random lists of length 0..6 and all 4-tuples over a '
               '7-value pool (+ default). Oracle through Parser.parse: every tuple of length <= %d x AND/OR/XOR, nested '
-              'regroupings, NOT, IF on all pairs, IFS/SWITCH random, predicates on numbers/text/logicals/blank/errors.'
+              'regroupings, NOT, IF on all pairs, IFS/SWITCH random, predicates on numbers/text/logicals/blank/errors; the laws of '
+              'Proofs/LogicAlgebra.v (reordering, De Morgan, XOR of two, NOT of NOT) as nested formulas on error-free items.'
               % (maxlen, tl))
     return R
 
